@@ -137,6 +137,16 @@ def load_known():
         return json.load(fh)
 
 
+def harness_matches(pattern, harness):
+    # "" matches every harness; otherwise a comma separated list of harness names or prefixes ending in "*"
+    if not pattern:
+        return True
+    for p in pattern.split(","):
+        if p == harness or (p.endswith("*") and harness.startswith(p[:-1])):
+            return True
+    return False
+
+
 def prop_of(finding):
     p = finding.get("property")
     return p if isinstance(p, list) else [p]
@@ -154,7 +164,9 @@ def matches(finding, viol, prop):
         return False
     if "weak_only" in m and not viol.get("weak"):
         return False
-    if m.get("harness") and viol.get("harness") != m["harness"]:
+    if m.get("harness") and not harness_matches(m["harness"], viol.get("harness", "")):
+        return False
+    if viol.get("window", 16) < m.get("min_window", 0):
         return False
     return True
 
@@ -350,7 +362,8 @@ def main():
             for kv in os.environ.get("VERIF_EXTRA_PARAMS", "").split():  # experiments only, e.g. "reuse=1"
                 cmd += ["--param", kv]
             for f in known.get("open", []):
-                if prop in prop_of(f) and f.get("match", {}).get("harness", "") in ("", j["harness"]) and (not f["match"].get("weak_only") or j.get("weak")):
+                if prop in prop_of(f) and harness_matches(f.get("match", {}).get("harness", ""), j["harness"]) and (not f["match"].get("weak_only") or j.get("weak")) \
+                        and j.get("window", 16) >= f["match"].get("min_window", 0):
                     for kind in f["match"].get("kinds", []):
                         cmd += ["--known", "%s:%s" % (kind, f["match"].get("cfg_prefix", ""))]
             tasks.append((ji, w, cmd, out))
@@ -410,6 +423,7 @@ def main():
             v["harness"] = d["harness"]
             v["weak"] = bool(jobs[d["_job"]].get("weak"))
             v["variant"] = jobs[d["_job"]].get("variant", "prod")
+            v["window"] = jobs[d["_job"]].get("window", 16)
             violations.append(v)
 
     # ---- classify violations against the known-findings file
